@@ -87,6 +87,17 @@ type c5node struct {
 	sink *zsim.SimSink
 	// hook bookkeeping: message -> calls
 	hookCalls map[string]int
+	// lazy-with nodes: how often their deferred fields were marshaled
+	lazyMarsh int
+	underLazy bool // some ancestor is a lazy-with node (whose first use derives, and thereby evaluates, this one)
+}
+
+type c5lazyMarsh struct{ n *c5node }
+
+func (m c5lazyMarsh) MarshalLogObject(enc zapcore.ObjectEncoder) error {
+	m.n.lazyMarsh++
+	enc.AddInt("id", m.n.id)
+	return nil
 }
 
 type c5world struct {
@@ -198,6 +209,13 @@ func (w *c5world) nodeEnabled(n *c5node, l zapcore.Level, val []zapcore.Level) b
 		return false
 	}
 	return w.nodeEnabled(n.kids[0], l, val)
+}
+
+func (w *c5world) markUnderLazy(n *c5node, under bool) {
+	n.underLazy = under
+	for _, k := range n.kids {
+		w.markUnderLazy(k, under || n.kind == c5Lazy)
+	}
 }
 
 func (w *c5world) gen(g *zsim.Stream, depth int, budget *int) *c5node {
@@ -314,7 +332,7 @@ func (w *c5world) build(n *c5node, frag int) zapcore.Core {
 			}
 		}))
 	case c5Lazy:
-		n.core = zapcore.NewLazyWith(w.build(n.kids[0], frag), []zapcore.Field{zap.Int("lazy", n.id)})
+		n.core = zapcore.NewLazyWith(w.build(n.kids[0], frag), []zapcore.Field{zap.Object("lazy", c5lazyMarsh{n})})
 	case c5With:
 		n.core = w.build(n.kids[0], frag).With([]zapcore.Field{zap.Int("with", n.id)})
 	}
@@ -358,6 +376,7 @@ func runC05(c *Ctx) {
 	}
 	budget := 3 + g.Draw(9)
 	root := w.gen(g, 0, &budget)
+	w.markUnderLazy(root, false)
 	frag := 1 + g.Draw(2)
 	core := w.build(root, frag)
 	if r.Failed() {
@@ -677,12 +696,29 @@ func runC05(c *Ctx) {
 				switch op.kind {
 				case 0:
 					before := sinkWrites()
+					lazyBefore := map[int]int{}
+					for _, ln := range w.nodes {
+						if ln.kind == c5Lazy {
+							lazyBefore[ln.id] = ln.lazyMarsh
+						}
+					}
 					ev++
 					op.inv = ev
 					l, _ := doLog(op)
 					ev++
 					op.ret = ev
 					if nTasks == 1 {
+						for _, ln := range w.nodes {
+							if ln.kind != c5Lazy || ln.underLazy {
+								continue
+							}
+							// the wrapped core's own report decides (an increase-level
+							// node reports its own enabler only, see "not judged")
+							if !w.nodeEnabled(ln.kids[0], l, w.val) && ln.lazyMarsh != lazyBefore[ln.id] {
+								c.Fail("C05: a disabled entry caused field marshaling", "%s level %d: the core wrapped by lazy-with node %d does not enable it, yet the deferred fields were marshaled; atomics %v; tree %s", op.msg, l, ln.id, w.val, w.describe(root))
+								return
+							}
+						}
 						if !judge(op, l, [][]zapcore.Level{w.val}) {
 							return
 						}
